@@ -32,6 +32,10 @@ impl SearchInstance {
         dst: VertexId,
         state: &[StateVar],
     ) -> Result<Cost, SearchError> {
+        #[cfg(all(kani, feature = "verif-step"))]
+        if true {
+            return unsafe { crate::util::verif_hooks::verif_cost_estimate(self, src, dst, state) };
+        }
         let src = self.directed_graph.get_vertex(&src)?;
         let dst = self.directed_graph.get_vertex(&dst)?;
         let mut dst_state = state.to_vec();
